@@ -516,10 +516,20 @@ func (m *Machine) checkTimers() {
 
 // quiescent handles the state where no thread is enabled. Returns true if execution can continue.
 func (m *Machine) quiescent() bool {
+	main := m.threads[0]
+	// verifSettle: the harness only waits for the goroutines to park; virtual time must not jump meanwhile
+	if main.State == tBlocked && main.Wait != nil && main.Wait.kind == "quiesce" && main.Wait.what == "verifSettle" {
+		main.Wait.done = true
+		for _, t := range m.threads {
+			if t != main {
+				main.clock = vcJoin(main.clock, t.clock)
+			}
+		}
+		return true
+	}
 	if m.fireNextTimer() {
 		return true
 	}
-	main := m.threads[0]
 	if main.State == tBlocked && main.Wait != nil && main.Wait.kind == "quiesce" {
 		main.Wait.done = true
 		// the harness observes the quiescent state: everything that happened so far happens-before its next step
